@@ -13,14 +13,15 @@ import (
 )
 
 type Clause struct {
-	Label string // e.g. C11.len ; may be empty
-	Src   string
-	Expr  CExpr
-	Line  int
-	File  string
-	Thor  bool   // thorough tier only
-	Mode  string // "int": discharge in the integer encoding first
-	Slow  bool   // needs several seconds: gets six times the per-obligation budget
+	Label    string // e.g. C11.len ; may be empty
+	Src      string
+	Expr     CExpr
+	Line     int
+	File     string
+	Thor     bool   // thorough tier only
+	HeadOnly bool   // loop exit clause: only the exit out of the loop header (condition false)
+	Mode     string // "int": discharge in the integer encoding first
+	Slow     bool   // needs several seconds: gets six times the per-obligation budget
 }
 
 type LoopSpec struct {
@@ -414,6 +415,11 @@ func (sp *Specs) parseFile(path string, data []byte, pkgPath string) error {
 				case "step":
 					ls.Steps = append(ls.Steps, c)
 				case "exit":
+					ls.Exits = append(ls.Exits, c)
+				case "condexit":
+					// like exit, but only for the exit taken when the loop condition (evaluated in the loop
+					// header) is false; break/return edges out of the body are not constrained
+					c.HeadOnly = true
 					ls.Exits = append(ls.Exits, c)
 				case "decreases":
 					ls.Decreases = c
